@@ -311,6 +311,13 @@ def u7_parameter_ranges(ctx) -> None:
                     ctx.violation("U7", alt[0][0], f"what the remaining children can absorb is computed with `{agg}` over their {which} bounds; it is their *sum* (each of them "
                                   "takes its own share): the values offered to the first child are cut short or run over, and the weights no longer add up to the count")
                     return
+        outer = [hit for pos in (0, 1) for hit in PT.find_all(m.node, f"_M_t = {{_M_k: sum((_M_x[_M_k][{pos}] for _M_x in _M_all[1:])) for _M_k in self.parent_parameters}}")
+                 if not any(hit[0] is x for x in ast.walk(h))]
+        if outer:
+            ctx.violation("U7", outer[0][0], f"`{norm(outer[0][0])[:70]}` is computed once, outside the recursive helper: which children *remain* changes at every level of the "
+                          "recursion, so from the second child on the bounds still count the child in hand and the values it is offered are cut short -- compositions are "
+                          "missing and the weights no longer add up to the count")
+            return
         raise AnalysisError("U7: the sums of the remaining children's lower / upper bounds are not computed in the known way")
     lo, hi = rest_lo[0][1]["_M_lo"], rest_hi[0][1]["_M_hi"]
     own = [t.id for n in walk_local(h) for t, v in [PT.assign_value(n)] if isinstance(t, ast.Name) and v is not None and norm(v) == f"{mm}[0]"
